@@ -293,6 +293,8 @@ func backward[K nodeKey, V any](root nodeRef, restore func(unsafe.Pointer) (K, V
 
 func topK[K nodeKey, V any](t Tree[K, V], k uint) iter.Seq2[K, V] {
 	return func(yield func(K, V) bool) {
+		k := k // every iteration of the sequence counts from the full k
+
 		if k == 0 {
 			return
 		}
@@ -313,6 +315,8 @@ func topK[K nodeKey, V any](t Tree[K, V], k uint) iter.Seq2[K, V] {
 
 func bottomK[K nodeKey, V any](t Tree[K, V], k uint) iter.Seq2[K, V] {
 	return func(yield func(K, V) bool) {
+		k := k // every iteration of the sequence counts from the full k
+
 		if k == 0 {
 			return
 		}
